@@ -42,3 +42,135 @@ Print Assumptions C14_A2_all_wrappers_ok.
 Theorem C14_A2_every_wrapper_ok : forall w, In w all_wrappers -> wrapper_issues w = [].
 Proof. exact (every_wrapper_ok all_wrappers C14_A2_all_wrappers_ok). Qed.
 Print Assumptions C14_A2_every_wrapper_ok.
+
+(* ---- C14-A1 (generic: every tree, every well-formed description, every nesting depth) ----
+   wf_desc d: both lists name the same members with the same descriptions, no duplicates,
+   every member name is in every check_params set, the default of an enumeration-typed
+   member has a text; recursively for the params-typed members.
+   agrees d c p: "p carries, for every parameter of d, the value c has, the default where c
+   has none" (values: the data text; ptree members: the subtree; params members: recursively). *)
+Theorem C14_A1_export_of_import_agrees_with_input d :
+  wf_desc d -> forall c v, import d c = Ok v ->
+  match d with DStruct _ _ _ => agrees d c (Some (export d (Some v) [] empty_ptree)) | _ => True end.
+Proof. exact (export_import_agrees d). Qed.
+Print Assumptions C14_A1_export_of_import_agrees_with_input.
+
+(* export . import is the identity on value parameters that are present (defaults elsewhere) *)
+Theorem C14_A1_value_parameters_written_back imps exps chk t v k ty dflt x :
+  let d := DStruct imps exps chk in
+  wf_desc d -> import d (Some t) = Ok v -> In (k, DVal ty dflt) imps ->
+  get_value k x (export_top d v) = get_value k dflt t.
+Proof.
+  intros d Hwf Hi Hin. apply (agrees_value imps exps chk t (export_top d v) k ty dflt x); [|exact Hin].
+  exact (export_import_agrees d Hwf (Some t) v Hi).
+Qed.
+Print Assumptions C14_A1_value_parameters_written_back.
+
+(* ... at any depth: the same statement holds for the member struct on the member subtrees *)
+Theorem C14_A1_nested_members imps exps chk t v k i e ch :
+  let d := DStruct imps exps chk in
+  wf_desc d -> import d (Some t) = Ok v -> In (k, DStruct i e ch) imps ->
+  agrees (DStruct i e ch) (Some (get_child k t)) (Some (get_child k (export_top d v))).
+Proof.
+  intros d Hwf Hi Hin. apply (agrees_child imps exps chk t (export_top d v) k i e ch); [|exact Hin].
+  exact (export_import_agrees d Hwf (Some t) v Hi).
+Qed.
+Print Assumptions C14_A1_nested_members.
+
+(* parameters of run-time wrappers (ptree-typed members) are written back verbatim *)
+Theorem C14_A1_ptree_members_written_back imps exps chk t v k :
+  let d := DStruct imps exps chk in
+  wf_desc d -> import d (Some t) = Ok v -> In (k, DOpaque) imps ->
+  get_child_opt k (export_top d v) = Some (get_child k t).
+Proof.
+  intros d Hwf Hi Hin. apply (agrees_opaque imps exps chk t (export_top d v) k); [|exact Hin].
+  exact (export_import_agrees d Hwf (Some t) v Hi).
+Qed.
+Print Assumptions C14_A1_ptree_members_written_back.
+
+(* import . export . import = import *)
+Theorem C14_A1_import_export_import imps exps chk t v :
+  let d := DStruct imps exps chk in
+  wf_desc d -> import d (Some t) = Ok v -> import d (Some (export_top d v)) = Ok v.
+Proof. exact (import_export_import imps exps chk t v). Qed.
+Print Assumptions C14_A1_import_export_import.
+
+(* every key of the tree that a check_params call does not list reaches the unknown hook;
+   a member name of a well-formed struct is not reported by the struct's own checks *)
+Theorem C14_A1_unknown_keys_reach_the_hook imps exps chk t k names :
+  In k (map fst (pkids t)) -> In names chk -> mem k names = false ->
+  In k (unknowns (DStruct imps exps chk) (Some t)).
+Proof. exact (unknown_reported imps exps chk t k names). Qed.
+Print Assumptions C14_A1_unknown_keys_reach_the_hook.
+
+Theorem C14_A1_members_are_not_reported imps exps chk t k :
+  wf_desc (DStruct imps exps chk) -> In k (map fst imps) -> ~ In k (unknown_here chk t).
+Proof. exact (member_not_reported imps exps chk t k). Qed.
+Print Assumptions C14_A1_members_are_not_reported.
+
+(* an enumeration text that is not in the operator>> table raises, also from inside a struct *)
+Theorem C14_A1_invalid_enumeration_raises names dflt n :
+  mem (pdata n) names = false -> import (DVal (TEnum names) dflt) (Some n) = Exc "invalid_argument".
+Proof. exact (enum_invalid names dflt n). Qed.
+Print Assumptions C14_A1_invalid_enumeration_raises.
+
+Theorem C14_A1_invalid_enumeration_propagates imps exps chk t k names dflt n :
+  NoDup (map fst imps) -> In (k, DVal (TEnum names) dflt) imps ->
+  get_child_opt k t = Some n -> mem (pdata n) names = false ->
+  exists e, import (DStruct imps exps chk) (Some t) = Exc e.
+Proof.
+  intros Hnd Hin Hc Hm. rewrite import_struct_eq. cbn [of_opt].
+  destruct (import_fields_exc imps t k _ "invalid_argument" Hnd Hin) as [e He].
+  - rewrite Hc. exact (enum_invalid names dflt n Hm).
+  - exists e. rewrite He. reflexivity.
+Qed.
+Print Assumptions C14_A1_invalid_enumeration_propagates.
+
+(* ---- A2 feeds A1: every instantiation built from the structs of the CURRENT tree that carry
+        no reviewed exception and no known finding is well formed, for every binding of the
+        template members, every nesting depth and every default text ---- *)
+Definition regular_structs : list struct_desc :=
+  filter (fun s => negb (listed gen_exceptions gen_known s)) all_structs.
+
+Theorem C14_A2_A1_instantiations_of_the_tree_are_well_formed bind dflt ety fuel path id :
+  (forall p, match ety p with TEnum names => mem (dflt p) names = true | TPlain => True end) ->
+  wf_desc (resolve regular_structs bind dflt ety fuel path id).
+Proof.
+  intros Hety. apply resolve_wf; [|exact Hety].
+  intros s Hs. unfold regular_structs in Hs. apply filter_In in Hs. destruct Hs as [Hin Hl].
+  apply (C14_A2_unlisted_structs_regular s Hin). destruct (listed gen_exceptions gen_known s); [discriminate | reflexivity].
+Qed.
+Print Assumptions C14_A2_A1_instantiations_of_the_tree_are_well_formed.
+
+(* the hypotheses are satisfiable and the statement is not vacuous: cg::params of the tree *)
+Example C14_A1_example_cg :
+  let d := resolve regular_structs (fun _ => None) (fun p => match p with ["tol"] => "1e-08" | _ => "0" end)
+                   (fun _ => TPlain) 3 [] "solver/cg.hpp:cg::params" in
+  let t := Node "" [("tol", Node "0.25" []); ("bogus", Node "1" [])] in
+  wf_desc d /\
+  roundtrip d t = Ok (Node "" [("maxiter", Node "0" []); ("tol", Node "0.25" []); ("abstol", Node "0" []);
+                               ("ns_search", Node "0" []); ("verbose", Node "0" [])]) /\
+  unknowns d (Some t) = ["bogus"].
+Proof.
+  split; [apply C14_A2_A1_instantiations_of_the_tree_are_well_formed; intros p; exact I|].
+  split; vm_compute; reflexivity.
+Qed.
+
+(* ---- C14-A3: run-time dispatch is a match on the tag ---- *)
+Theorem C14_A3_runtime_wrapper_is_the_component (Tag A : Type) parse show dflt tagkey
+        (component : Tag -> ptree -> A) prm tg :
+  parse (get_value tagkey (show dflt) prm) = Some tg ->
+  runtime_wrapper Tag A parse show dflt tagkey component prm = Ok (component tg (erase tagkey prm))
+  /\ get_child_opt tagkey (erase tagkey prm) = None
+  /\ (forall k, tagkey <> k -> get_child_opt k (erase tagkey prm) = get_child_opt k prm).
+Proof.
+  intros H. split; [exact (runtime_wrapper_is_match Tag A parse show dflt tagkey component prm tg H)|].
+  split; [exact (erase_removes tagkey prm) | intros k Hk; exact (erase_keeps tagkey k prm Hk)].
+Qed.
+Print Assumptions C14_A3_runtime_wrapper_is_the_component.
+
+Theorem C14_A3_invalid_type_raises (Tag A : Type) parse show dflt tagkey (component : Tag -> ptree -> A) prm :
+  parse (get_value tagkey (show dflt) prm) = None ->
+  runtime_wrapper Tag A parse show dflt tagkey component prm = Exc "invalid_argument".
+Proof. exact (runtime_wrapper_invalid Tag A parse show dflt tagkey component prm). Qed.
+Print Assumptions C14_A3_invalid_type_raises.
